@@ -10,7 +10,7 @@ EXC = (ValueError, TypeError, AttributeError, KeyError, IndexError)
 
 COMPOSE = {
     "id": [None, 5, "", "nodate", []], "type": ["bogus", None, 5], "date": ["2024", "2024010a", None, 20240101],
-    "respin": ["1", None, 1.5], "label": ["GA", "RC-1", 5, "Beta-1.0.1", "rc-1.0", "RC-1. 0", "Beta-1.0 ", "Alpha-1_0.2", "Update-1.\t2", " RC-1.0"], "final": ["yes", None, 1],
+    "respin": ["1", None, 1.5], "label": ["GA", "RC-1", 5, "Beta-1.0.1", "rc-1.0", "RC-100", "RC-1x0", "Beta-1-2", "Update-2_10", "RC-1. 0", "Beta-1.0 ", "Alpha-1_0.2", "Update-1.\t2", " RC-1.0"], "final": ["yes", None, 1],
 }
 CI_RELEASE = {"name": [None, 5], "short": [None, 5], "version": ["1.", "1..2", None, 5, "1a", ""], "type": ["bogus", None, "GA"],
               "is_layered": ["yes", None, 1], "internal": ["no", None]}
@@ -137,6 +137,7 @@ def generate(rng, kind, n):
                 plat = sorted(d["images"])[0]
                 opts.append(("images", [plat], "path", "/abs/boot.iso"))
                 opts.append(("images", ["unreferenced-platform"], "platform", "images/x"))
+                opts.append(("images", ["unreferenced-empty"], "platform", None))          # ... with an empty image table
                 opts.append(("images", ["%s-%s" % (plat, d["tree"]["arch"])], "platform", "images/x"))
             opts.append(("stage2", [], "mainimage", "/abs/install.img"))
             opts.append(("stage2", [], "mainimage", 5))
@@ -201,7 +202,7 @@ def corrupt_content(case):
                 name = sorted(c["images"][pos[0]])[0]
                 c["images"][pos[0]][name] = v
             else:
-                c["images"][pos[0]] = {"boot.iso": v}
+                c["images"][pos[0]] = {"boot.iso": v} if v is not None else {}
         elif where == "checksums":
             c["checksums"][v] = ["sha256", "ab" * 32]
     else:
@@ -305,7 +306,7 @@ def impl(case):
                     name = sorted(o.images.images[pos[0]])[0]
                     o.images.images[pos[0]][name] = v
                 else:
-                    o.images.images[pos[0]] = {"boot.iso": v}
+                    o.images.images[pos[0]] = {"boot.iso": v} if v is not None else {}
             elif where == "checksums":
                 o.checksums.checksums[v] = ("sha256", "ab" * 32)
         else:
